@@ -76,7 +76,7 @@ def run(ctx, res):
                 npaths = 0
                 for p in ev.paths:
                     evs = [e for e in p.events if e.kind != "branch"]
-                    le = [e for e in evs if e.kind == "call" and e.node["id"] == call["id"]]
+                    le = [e for e in evs if e.kind == "call" and same_node(e.node, call)]
                     if not le or p.end != "exit":
                         continue
                     le = le[-1]
